@@ -59,6 +59,40 @@ def unit(job, variant, pi, seed, length, fork_every):
                 out["foreign_rejects"] += 1
     out["skills"] = len(out["skills"])
     out["reqs"], out["expect"], out["mstats"] = complib.harvest_model_requests(cmds, job, variant, per_key=10)
+    # boundary states of the cooldown: any remaining cooldown is reachable by choosing elapse amounts, so each
+    # harvested state of a component with a `cooldown` entity is also tried with the cooldown just above, at and
+    # just below zero; valid => the component's own `use` is not rejected, and time_left >= 0
+    out["boundary_states"] = 0
+    with complib.Harvest(6) as hv:
+        eng2 = simlib.make_engine(job, variant)
+        for i, c in enumerate(cmds):
+            eng2.exec(c)
+            if i % 5 == 0:
+                complib.eval_views(eng2)
+    import copy as _copy
+    for _sig, call in hv.calls.items():
+        if call["method"] != "validity" or not hasattr(call["args"][-1], "cooldown"):
+            continue
+        comp = call["owner"]
+        if not hasattr(comp, "use"):
+            continue
+        for tl in (2.0 ** -10, 5e-4, 1e-9, 0.0, -(2.0 ** -10)):
+            st = _copy.deepcopy(call["args"][-1])
+            st.cooldown.time_left = tl
+            out["boundary_states"] += 1
+            try:
+                v = comp.validity(_copy.deepcopy(st))
+                _new, evs = comp.use(None, _copy.deepcopy(st))
+            except Exception as e:
+                fail("view-or-use-raised-on-boundary-state", skill=comp.name, cooldown_time_left=tl,
+                     error=f"{type(e).__name__}: {e}")
+                continue
+            evs = evs if isinstance(evs, list) else ([] if evs is None else [evs])
+            if v.time_left < 0:
+                fail("negative-time-left", skill=comp.name, cooldown_time_left=tl, time_left=v.time_left)
+            if v.valid and any(e["tag"] == Tag.REJECT for e in evs):
+                fail("valid-but-rejected", skill=comp.name, component_class=type(comp).__name__,
+                     cooldown_time_left=tl, synthetic="cooldown.time_left of a harvested state set to a boundary value")
     out["sample"] = {"job": job, "plan": [command_text(c) for c in cmds][:10]}
     return out
 
@@ -71,7 +105,8 @@ def main(ck: Check):
     fork_every = 3 if quick else 1
     rng = ck.rng
     work = [(job, v, pi, ck.seed, rng.randint(*length), fork_every) for job in JOBS for v in variants for pi in range(plans_per)]
-    tot = {"states": 0, "forks": 0, "valid_listed": 0, "foreign_rejects": 0, "skills": 0, "keydown_running_states": 0}
+    tot = {"states": 0, "forks": 0, "valid_listed": 0, "foreign_rejects": 0, "skills": 0, "keydown_running_states": 0,
+           "boundary_states": 0}
     samples, reqs, expect = [], [], []
     mstats: dict = {}
     for args, out in pmap(unit, work, ck.budget_s * 0.7):
